@@ -163,6 +163,13 @@ type runResult struct {
 
 func runProperty(w *World, p *PropertyDef, known []KnownFinding) (res runResult) {
 	c := &Ctx{W: w, Prop: p}
+	// complete the module call graph with calls made through local tables of closures / function
+	// values (steps run by a loop): done once per program, for every property alike, so that a
+	// verdict does not depend on which other property ran before in the same process
+	func() {
+		defer func() { _ = recover() }()
+		c09Tables(w)
+	}()
 	func() {
 		defer func() {
 			if r := recover(); r != nil {
